@@ -92,6 +92,80 @@ let check tk =
   done;
   Buffer.add_string b "\n"; print_string (Buffer.contents b)
 
+(* vars mode: the layout line of harness/c08_no.cpp (n rects | groups | clusters | user constraints | edges ideal mode); prints
+   per dimension the model's variable layout (V), the user constraints' separation constraints (U) and the separation
+   constraints of all cluster containment constraints (K), variables shown by creator tag (see the harness). *)
+let dim_of n = if n = 0 then DX else DY
+let parse_cc tk =
+  match next tk with
+  | 1 -> let d = next tk in let l = next tk in let r = next tk in let g = next tk in let e = next tk in
+         CSep (dim_of d, nat_of_int l, nat_of_int r, q16 g, e <> 0)
+  | 2 -> let d = next tk in let l = next tk in let r = next tk in let g = next tk in let e = next tk in
+         CSepA (dim_of d, nat_of_int l, nat_of_int r, q16 g, e <> 0)
+  | 3 -> let d = next tk in let pos = next tk in let fx = next tk in let k = next tk in
+         let sh = rep k (fun () -> let s = next tk in let o = next tk in (nat_of_int s, q16 o)) in
+         CAlign (dim_of d, q16 pos, fx <> 0, sh)
+  | 5 -> let d = next tk in let sep = next tk in let k = next tk in
+         let prs = rep k (fun () -> let a = next tk in let b = next tk in (nat_of_int a, nat_of_int b)) in
+         CDistrib (dim_of d, q16 sep, prs)
+  | 6 -> let d = next tk in let sep = next tk in let e = next tk in let k = next tk in
+         let prs = rep k (fun () -> let a = next tk in let b = next tk in (nat_of_int a, nat_of_int b)) in
+         CMultiSep (dim_of d, q16 sep, e <> 0, prs)
+  | _ -> failwith "bad cc code"
+
+let vars tk =
+  let n = next tk in
+  let rects = rep n (fun () -> let x = next tk in let xx = next tk in let y = next tk in let yy = next tk in
+                               { rx = q16 x; rX = q16 xx; ry = q16 y; rY = q16 yy }) in
+  let nexg = next tk in
+  let _ = rep nexg (fun () -> let k = next tk in rep k (fun () -> next tk)) in
+  let ncl = next tk in
+  let nn v = q16 (max v 0) in
+  let cls = Array.of_list (rep ncl (fun () ->
+    let parent = next tk in
+    let px = next tk in let pX = next tk in let py = next tk in let pY = next tk in
+    let mx = next tk in let mX = next tk in let my = next tk in let mY = next tk in
+    let k = next tk in let nodes = rep k (fun () -> nnat tk) in
+    (parent, { bminx = nn px; bmaxx = nn pX; bminy = nn py; bmaxy = nn pY },
+     { bminx = nn mx; bmaxx = nn mX; bminy = nn my; bmaxy = nn mY }, nodes))) in
+  let ncc = next tk in
+  let ccs = rep ncc (fun () -> parse_cc tk) in
+  (* the hierarchy as the harness builds it: children in input order (addChildCluster), the root's id is ncl *)
+  let rec build k =
+    let (_, pad, mar, nodes) = cls.(k) in
+    CT (nat_of_int k, pad, mar, nodes, kids_of k)
+  and kids_of p = List.filter_map (fun j -> let (par, _, _, _) = cls.(j) in if par = p then Some (build j) else None)
+                    (List.init ncl (fun j -> j)) in
+  let b0 = { bminx = q16 0; bmaxx = q16 0; bminy = q16 0; bmaxy = q16 0 } in
+  let root = CT (nat_of_int ncl, b0, b0, [], kids_of (-1)) in
+  let str_tag = function
+    | TNode i -> Printf.sprintf "N%d" (int_of_nat i)
+    | TMin c -> if int_of_nat c = ncl then "R-" else Printf.sprintf "C%d-" (int_of_nat c)
+    | TMax c -> if int_of_nat c = ncl then "R+" else Printf.sprintf "C%d+" (int_of_nat c)
+    | TCc (j, k) -> Printf.sprintf "A%d.%d" (int_of_nat j) (int_of_nat k) in
+  List.iter (fun d ->
+    let flat = (ncl = 0) in
+    let lay = if flat then setup_layout_flat d (nat_of_int n) ccs else setup_layout d (nat_of_int n) root ccs in
+    let tg i = match tag_at lay i with Some t -> str_tag t | None -> "?" in
+    let b = Buffer.create 256 in
+    Buffer.add_string b (Printf.sprintf "V %d" (List.length lay));
+    List.iter (fun t -> Buffer.add_string b (" " ^ str_tag t)) lay;
+    Buffer.add_char b '\n';
+    let user = if flat then (match gen_system d (nat_of_int n) ccs with GOk s -> GOk s.so_seps | GErr e -> GErr e)
+               else setup_user_system d (nat_of_int n) root ccs in
+    (match user with
+     | GErr InvalidVariableIndex -> Buffer.add_string b "U ERR idx\n"
+     | GErr InvalidConstraint -> Buffer.add_string b "U ERR cons\n"
+     | GOk cs ->
+       Buffer.add_string b (Printf.sprintf "U %d" (List.length cs));
+       List.iter (fun c -> Buffer.add_string b (Printf.sprintf " %s %s %s %d" (tg c.sl) (tg c.sr) (str_q c.sgap) (if c.seqy then 1 else 0))) cs;
+       Buffer.add_char b '\n');
+    let ks = if flat then [] else List.concat_map snd (containments d (nat_of_int n) root rects) in
+    Buffer.add_string b (Printf.sprintf "K %d" (List.length ks));
+    List.iter (fun c -> Buffer.add_string b (Printf.sprintf " %s %s %s" (tg c.sl) (tg c.sr) (str_q c.sgap))) ks;
+    Buffer.add_char b '\n';
+    print_string (Buffer.contents b)) [DX; DY]
+
 let () =
   let mode = if Array.length Sys.argv > 1 then Sys.argv.(1) else "gen" in
   try
@@ -100,7 +174,7 @@ let () =
       if String.length line > 0 then begin
         let ws = List.filter (fun x -> x <> "" && x <> "|") (String.split_on_char ' ' (String.trim line)) in
         let tk = { t = Array.of_list (List.map int_of_string ws); p = 0 } in
-        if mode = "gen" then gen tk else check tk
+        if mode = "gen" then gen tk else if mode = "vars" then vars tk else check tk
       end
     done
   with End_of_file -> ()
